@@ -116,7 +116,7 @@ func TestC15_TaxAndLimits(t *testing.T) {
 		}
 		var pool []rec
 		var log []string
-		fracTax, edgeSend, failBetween := false, false, false
+		fracTax, edgeSend, failBetween, taxChanged, cancelAfterTaxChange := false, false, false, false, false
 		accepted, lastFailed := 0, false
 		known := map[uint64]bool{}
 
@@ -137,6 +137,22 @@ func TestC15_TaxAndLimits(t *testing.T) {
 			case 3:
 				b.JumpTo(b.H + 1)
 			}
+			if rapid.IntRange(0, 7).Draw(t, "changeTax?") == 0 {
+				// governance changes the rate / the exemption while transfers are pending: the tax recorded with a
+				// transfer, not the one in force later, is what a cancellation returns
+				rateStr = rapid.SampledFrom([]string{"0", "0.2", "1/3", "7/3", "0.0025", "1"}).Draw(t, "newRate")
+				taxExempt = rapid.IntRange(-1, 2).Draw(t, "newTaxExemptUser")
+				bt := &skywaytypes.BridgeTax{Token: tok.Denom, Rate: rateStr}
+				if taxExempt >= 0 {
+					bt.ExemptAddresses = []sdk.AccAddress{users[taxExempt].Addr}
+				}
+				if err := k.SetBridgeTax(b.Ctx(), bt); err != nil {
+					t.Fatalf("set tax %q: %v", rateStr, err)
+				}
+				rate, _ = new(big.Rat).SetString(rateStr)
+				taxChanged = true
+				log = append(log, fmt.Sprintf("h%d:tax(%s,exempt=%d)", b.H, rateStr, taxExempt))
+			}
 			if rapid.IntRange(0, 5).Draw(t, "cancel?") == 0 && len(pool) > 0 {
 				i := rapid.IntRange(0, len(pool)-1).Draw(t, "which")
 				r := pool[i]
@@ -150,6 +166,9 @@ func TestC15_TaxAndLimits(t *testing.T) {
 					t.Fatalf("cancel returned %s, expected amount %s + tax %s", new(big.Int).Sub(got, bal[r.user]), r.amount, r.tax)
 				}
 				bal[r.user] = want
+				if taxChanged {
+					cancelAfterTaxChange = true
+				}
 				pool = append(pool[:i], pool[i+1:]...)
 				log = append(log, fmt.Sprintf("h%d:cancel(%d)", b.H, r.id))
 				continue
@@ -278,6 +297,9 @@ func TestC15_TaxAndLimits(t *testing.T) {
 		}
 		if failBetween {
 			labels = append(labels, "failedSendBetweenAccepted")
+		}
+		if cancelAfterTaxChange {
+			labels = append(labels, "cancelAfterTaxChange")
 		}
 		evid.Case(t.Name(), fmt.Sprintf("rate=%s exT=%d limit=%v %s/%s exL=%d | %s", rateStr, taxExempt, hasLimit, limit, period, limitExempt, strings.Join(log, " ")), fracTax || edgeSend || failBetween, labels, func() any {
 			return map[string]any{"rate": rateStr, "limit": fmt.Sprintf("%v %s per %s", hasLimit, limit, period), "history": log}
